@@ -84,6 +84,10 @@ def gen_header(rng, family, defects=True, date_bias=False):
             f[1] = rng.choice(FAMILIES[family]['lang'])
         if f[0] == 'Plural-Forms':
             f[1] = rng.choice(PLURAL_FORMS)
+    if rng.random() < 0.3:          # non-ASCII text in the header entry too
+        for f in fields:
+            if f[0] == 'Last-Translator':
+                f[1] = gen_text(rng, family, 8, special=0.0).strip() + ' <translator@example.org>'
     r = rng.random()
     nmut = 0 if (not defects or r < 0.3) else 1 if r < 0.65 else rng.randint(2, 4)
     for _ in range(nmut):
